@@ -1306,4 +1306,165 @@ theorem migration_preserves_effective (g : Full) (c : Option Claims) (ssh : Bool
     | false => exact ⟨rfl, rfl, rfl, rfl, fun h => by cases h⟩
 
 
+/-! ### certificate templates that set the validity -/
+
+
+/-- a template instant the SSH conversion can digest: not set, or from 1970 on and representable -/
+def tplFine (t : Int) : Prop := t = 0 ∨ (0 ≤ unixOf t ∧ unixOf t + unixToInternal ≤ maxI64)
+
+theorem templateValidity_fine (t : Int) (h : tplFine t) : ∃ v, templateValidity t = .ok v ∧ reach v := by
+  unfold templateValidity
+  cases h with
+  | inl h0 =>
+    rw [if_pos h0]
+    exact ⟨0#64, rfl, by unfold reach unixToInternal maxI64; decide⟩
+  | inr h1 =>
+    by_cases h0 : t = 0
+    · rw [if_pos h0]
+      exact ⟨0#64, rfl, by unfold reach unixToInternal maxI64; decide⟩
+    · rw [if_neg h0]
+      unfold castU64
+      rw [if_neg (by omega)]
+      exact ⟨_, rfl, reach_ofInt _ h1.1 h1.2⟩
+
+/-- **ssh_no_crash_template.** `ssh_no_crash` with the certificate coming from the provisioner's SSH template:
+    when the template sets no validity (default templates) or instants from 1970 on, the sign chain never
+    aborts, for every request. -/
+theorem ssh_no_crash_template (cl : Claimer) (m : SshMode) (now : Int) (user tok : SshOpts) (tva tvb : Int) (ctype : Nat)
+    (hnow : 0 ≤ unixOf now ∧ unixOf now + unixToInternal ≤ maxI64)
+    (hua : tdRepresentable now user.va) (hub : tdRepresentable now user.vb)
+    (hta : tdRepresentable now tok.va) (htb : tdRepresentable now tok.vb)
+    (hbd : 0 ≤ user.backdate)
+    (hd : ∀ d, cl.defSSH ctype = some d → 0 ≤ d ∧ d ≤ maxI64)
+    (hm : modeFine m) (htpl : tplFine tva ∧ tplFine tvb) :
+    sshSignTemplate cl m now user tok tva tvb ctype ≠ .crash := by
+  obtain ⟨va, e1, r1⟩ := templateValidity_fine tva htpl.1
+  obtain ⟨vb, e2, r2⟩ := templateValidity_fine tvb htpl.2
+  have key := ssh_no_crash cl m now user tok ⟨va, vb, ctype⟩ hnow hua hub hta htb hbd hd hm ⟨r1, r2⟩
+  unfold sshSign at key
+  unfold sshSignTemplate sshTemplateCert
+  rw [e1, e2]
+  exact key
+
+/-- A template whose `validAfter` lies before 1970 aborts `Authority.signSSH` (sshutil's `toValidity` uses
+    `utils.MustUint64`) — for every request, before any option of the request is looked at. -/
+theorem ssh_template_pre1970_aborts :
+    sshSignTemplate ⟨hardcoded, none⟩ .dflt d6now { backdate := 60 * second } {} (61819977600 * second) 0 userCert = .crash := by
+  decide
+
+/-- **ssh_bounds_template.** Whatever validity the SSH template sets, an issued certificate is inside the
+    bounds (`ssh_bounds` quantifies over the template's leftovers already). -/
+theorem ssh_bounds_template (cl : Claimer) (m : SshMode) (now : Int) (user tok : SshOpts) (tva tvb : Int) (ctype : Nat)
+    (c : SshCert) (mn mx : Int) (hm : cl.minMaxSSH c.ctype = some (mn, mx))
+    (hmx : 0 ≤ mx) (hmx2 : mx ≤ maxI64) (hbd : 0 ≤ user.backdate) (hbd2 : user.backdate ≤ maxI64)
+    (hnow : unixOf now < 9223372036854775808)
+    (h : sshSignTemplate cl m now user tok tva tvb ctype = .ok c) :
+    c.va.toNat ≤ c.vb.toNat ∧ unixOf now ≤ c.vb.toNat ∧
+    mn ≤ ((c.vb.toNat : Int) - c.va.toNat) * 1000000000 ∧
+    ((c.vb.toNat : Int) - c.va.toNat) * 1000000000 ≤ mx + user.backdate := by
+  unfold sshSignTemplate at h
+  obtain ⟨mods, _, h2⟩ := Out.bind_ok h
+  obtain ⟨c0, _, h3⟩ := Out.bind_ok h2
+  exact ssh_bounds cl m now user mods c0 c mn mx hm hmx hmx2 hbd hbd2 hnow h3
+
+/-- **template_dates_exact.** X.509 dates set by the provisioner's template are the leaf's when the request
+    does not ask for its own (no backdate is applied to a template `notBefore`), or the request is refused;
+    `x509_bounds` holds for them like for any other. -/
+theorem template_dates_exact (cl : Claimer) (m : Mode) (now vnow : Int) (c : Cert) (so : SignOpts) (leaf : Cert)
+    (h : x509Leaf cl m now vnow c so = .ok leaf) :
+    (reqNb now so = 0 → c.nb ≠ 0 → leaf.nb = c.nb) ∧
+    (relativeTime (nb1of now c so) so.na = 0 → c.na ≠ 0 → leaf.na = c.na) := by
+  have key : leaf.nb = nb1of now c so + bdof now c so ∧ (na0of now c so ≠ 0 → leaf.na = na0of now c so) := by
+    cases m with
+    | dflt =>
+      rw [(x509Leaf_dflt_ok h).1, profileDefault_eq]
+      exact ⟨rfl, fun hn => by simp [hn]⟩
+    | limit lnb lna =>
+      obtain ⟨_, _, h3⟩ := profileLimit_ok (x509Leaf_limit_ok h).1
+      rw [h3]
+      exact ⟨rfl, fun hn => by simp [hn]⟩
+  obtain ⟨k1, k2⟩ := key
+  constructor
+  · intro h0 hc
+    unfold reqNb at h0
+    rw [k1]
+    unfold bdof nb1of nb0of timeOr
+    rw [h0]
+    simp [hc]
+  · intro h0 hc
+    have : na0of now c so = c.na := by
+      unfold na0of timeOr
+      rw [h0]
+      simp [hc]
+    rw [k2 (by rw [this]; exact hc), this]
+
+example : x509Leaf ⟨hardcoded, none⟩ .dflt (63900000000 * second) (63900000000 * second)
+    ⟨63899996400 * second, 63900007200 * second⟩ { backdate := 60 * second } =
+    .ok ⟨63899996400 * second, 63900007200 * second⟩ := by decide
+
+
+/-! ### the chains every provisioner installs (source-derived table) -/
+
+
+/-- **all_chains_validated.** In the (source-derived) table of what every provisioner's `AuthorizeSign`,
+    `AuthorizeSSHSign` and `AuthorizeSSHRekey` installs: whoever installs an X.509 validity modifier also
+    installs `validityValidator` with the claims' min/max, and whoever installs an SSH validity modifier
+    (or, for rekey, nothing but validators) installs both SSH validators. -/
+theorem all_chains_validated :
+    ∀ e ∈ chainTable, (e.x509.isSome = true → e.x509Val = true) ∧
+      (e.ssh.isSome = true → e.sshVal = true ∧ e.sshDVal = true) ∧ (e.sshVal = e.sshDVal) := by decide
+
+/-- the methods through which X.509 certificates are authorized (every provisioner type with a sign flow) -/
+def x509Issuers : List String := ["ACME.AuthorizeSign", "AWS.AuthorizeSign", "Azure.AuthorizeSign", "GCP.AuthorizeSign",
+  "JWK.AuthorizeSign", "K8sSA.AuthorizeSign", "Nebula.AuthorizeSign", "OIDC.AuthorizeSign", "SCEP.AuthorizeSign", "X5C.AuthorizeSign"]
+def sshIssuers : List String := ["AWS.AuthorizeSSHSign", "Azure.AuthorizeSSHSign", "GCP.AuthorizeSSHSign", "JWK.AuthorizeSSHSign",
+  "K8sSA.AuthorizeSSHSign", "Nebula.AuthorizeSSHSign", "OIDC.AuthorizeSSHSign", "X5C.AuthorizeSSHSign"]
+
+/-- every one of them is in the table with one of the two modelled modifiers (and, by
+    `all_chains_validated`, the validator); the remaining table rows (`base`, `noop`, rekey) install no
+    validity modifier at all -/
+theorem issuers_modelled :
+    (∀ n ∈ x509Issuers, ∃ e ∈ chainTable, e.fn = n ∧ e.x509.isSome = true) ∧
+    (∀ n ∈ sshIssuers, ∃ e ∈ chainTable, e.fn = n ∧ e.ssh.isSome = true) ∧
+    (∀ e ∈ chainTable, e.fn ∉ x509Issuers → e.x509 = none) ∧
+    (∀ e ∈ chainTable, e.fn ∉ sshIssuers → e.ssh = none) := by decide
+
+/-- **chain_bounds_x509.** For every provisioner in the table: whatever the request, template and credential
+    window, a leaf its chain accepts is inside the bounds (`x509_bounds` instantiated at the mode the
+    provisioner actually installs). -/
+theorem chain_bounds_x509 (e : ChainEntry) (_he : e ∈ chainTable) (md : XMod) (_hmd : e.x509 = some md)
+    (cl : Claimer) (lnb lna now vnow : Int) (c : Cert) (so : SignOpts) (leaf : Cert)
+    (hv : cl.validate = true) (hbd : 0 ≤ so.backdate) (hbd2 : so.backdate ≤ maxI64)
+    (hmx : cl.maxTLS ≤ maxI64) (hsum : cl.maxTLS + so.backdate ≠ maxI64)
+    (h : x509Leaf cl (md.toMode lnb lna) now vnow c so = .ok leaf) :
+    trunc vnow ≤ trunc leaf.na ∧ cl.minTLS ≤ trunc leaf.na - trunc leaf.nb ∧
+    trunc leaf.na - trunc leaf.nb ≤ cl.maxTLS + so.backdate ∧
+    (md = .limit → leaf.na ≤ lna) := by
+  have hb := x509_bounds cl (md.toMode lnb lna) now vnow c so leaf hv hbd hbd2 hmx hsum h
+  refine ⟨hb.1, hb.2.1, hb.2.2, ?_⟩
+  intro hl
+  subst hl
+  exact (x5c_limit cl lnb lna now vnow c so leaf hbd hbd2 h).1
+
+/-- **chain_bounds_ssh.** Same for SSH: every table entry with an SSH modifier also has the validators
+    (`all_chains_validated`), so `ssh_bounds` applies to what it issues. -/
+theorem chain_bounds_ssh (e : ChainEntry) (_he : e ∈ chainTable) (md : SMod) (_hmd : e.ssh = some md)
+    (cl : Claimer) (lna : GTime) (now : Int) (user : SshOpts) (mods : Option U64 × Option U64) (c0 c : SshCert)
+    (mn mx : Int) (hm : cl.minMaxSSH c.ctype = some (mn, mx))
+    (hmx : 0 ≤ mx) (hmx2 : mx ≤ maxI64) (hbd : 0 ≤ user.backdate) (hbd2 : user.backdate ≤ maxI64)
+    (hnow : unixOf now < 9223372036854775808)
+    (h : sshSignWith cl (md.toMode lna) now user mods c0 = .ok c) :
+    c.va.toNat ≤ c.vb.toNat ∧ unixOf now ≤ c.vb.toNat ∧
+    mn ≤ ((c.vb.toNat : Int) - c.va.toNat) * 1000000000 ∧
+    ((c.vb.toNat : Int) - c.va.toNat) * 1000000000 ≤ mx + user.backdate :=
+  ssh_bounds cl (md.toMode lna) now user mods c0 c mn mx hm hmx hmx2 hbd hbd2 hnow h
+
+example : (chainTable.filter (fun e => e.x509.isSome)).length = 10 := by decide
+
+
+/-- observation: with authority backdate 0 and default = max, the *default* ACME order (start backdated by the
+    ACME minute) is one minute too long for the validator and Finalize refuses it -/
+example : x509Leaf ⟨hardcoded, none⟩ .dflt (63900000000 * second) (63900000000 * second) ⟨0, 0⟩
+    (acmeSignOpts (acmeOrderDates (63900000000 * second) day 0 0) 0) = .rej .tooLong := by decide
+
 end Verif.Validity
